@@ -19,7 +19,9 @@ any node set at any state, Restart from the newest published checkpoint).
   Restart / Final traces and validated by spec/RecoveryTrace.tla.
 """
 import json
+import sys
 import vlib
+import c01_deep
 import restartlib
 
 RULE = ("TLC explores every interleaving of reads, barrier deliveries, alignment, acks (any order), publication, "
@@ -40,7 +42,8 @@ DEV_ASSIGN = False
 BUDGET = dict(quick=60, thorough=600)
 
 BASE = dict(W=2, NSplits=2, NRecs=2, KeyDigits=1221, OwnerDigits=12, B=1, MaxCkpt=2, MaxKills=2, KillJob=True,
-            MaxLen=100000, StopAtDone=False, KillDilution=8, Dev_AssignUnsorted=False)
+            MaxLen=100000, StopAtDone=False, KillDilution=8, Dev_AssignUnsorted=False,
+            Rescale="@{}", G=0, GroupDigits=0, Overlap=False, PubDilution=1)   # no rescale, no overlapping publication: c01_deep.py
 
 
 def exhaustive(c, consts, label, timeout=1500):
@@ -157,13 +160,13 @@ def run(c):
         stage(c, replay_generated, c, consts, n[i], depth, c.seed * 100 + i, kg, "cfg%d" % i)
     stage(c, traces, c, TRACE, 4, 60 if quick else 400, c.seed * 7 + 1, "2 workers, 3x6 records", True)
     stage(c, traces, c, dict(TRACE, W=3, NSplits=4, NRecs=8, OwnerDigits=123123), 6, 20 if quick else 300, c.seed * 7 + 2, "3 workers, 4x8 records")
+    c01_deep.run_deep(c, sys.modules[__name__])   # dkv flush/compaction underneath, rescale at recovery, overlapping publications
     c.assumptions += [
         "one assembly per job in the Recovery.tla arms: a restart is a new Job + fresh workers over the same storage; of a re-assembly inside "
         "a living job only the one-cut condition is checked here (restart arm), the rest is C15",
         "kill-only fault model: calls never fail while both ends are alive; messages in flight from a dead node may still arrive",
-        "publication (snapshot write, deletion of the old file, retention round to the operators) is not interleaved with kills "
-        "or with the next checkpoint (DESIGN 7 #19/#28 belong to C13/C09)",
-        "operator DKVs run with the repo's default memtable sizes (no flush/compaction underneath): DKV correctness is C07/C08",
+        "one publication = snapshot write + deletion of the old file + retention round to the operators, not interleaved with other "
+        "steps (DESIGN 7 #19/#28 belong to C13/C09); the write itself may stay in flight across kills and the next checkpoint",
     ]
 
 
@@ -171,6 +174,9 @@ def replay(c, path):
     payload = json.load(open(path))
     if restartlib.is_restart_file(payload):
         restartlib.replay(c, path)
+        return
+    if payload.get("deep"):
+        c01_deep.replay_trace(c, sys.modules[__name__], payload)
         return
     if payload.get("mode") == "trace":
         cfg = payload["config"]
